@@ -27,8 +27,11 @@ def main():
     ap.add_argument('--tier', default='quick')
     ap.add_argument('--demo', action='store_true')
     ap.add_argument('--props', default=None, help='comma separated properties to run instead')
+    ap.add_argument('--root', default='seeded', help='directory under /verif holding the changes')
+    ap.add_argument('--expect-silent', action='store_true',
+                    help='the changes preserve the properties: every check must stay silent')
     args = ap.parse_args()
-    root = os.path.join(HERE, 'seeded')
+    root = os.path.join(HERE, args.root)
     names = sorted(d for d in os.listdir(root) if os.path.isdir(os.path.join(root, d)))
     side = tempfile.mkdtemp(prefix='dznpy-verif-side-')
     results = []
@@ -38,7 +41,9 @@ def main():
                 continue
             sdir = os.path.join(root, name)
             meta = json.load(open(os.path.join(sdir, 'meta.json'), encoding='utf-8'))
-            props = args.props.split(',') if args.props else [meta['property']]
+            props = args.props.split(',') if args.props else (
+                [meta['property']] if 'property' in meta else
+                [f'C{i:02d}' for i in range(1, 21)])
             scratch = tempfile.mkdtemp(prefix='dznpy-verif-seed-')
             try:
                 copy = os.path.join(scratch, 'repo')
@@ -66,8 +71,9 @@ def main():
                     cp = subprocess.run([os.path.join(HERE, 'check'), prop, '--tier', args.tier],
                                         cwd=HERE, env=env, capture_output=True, text=True,
                                         timeout=6 * 3600)
-                    verdict = {0: 'MISSED', 1: 'caught', 2: 'inconclusive'}.get(cp.returncode,
-                                                                                f'exit{cp.returncode}')
+                    names_ = {0: 'silent', 1: 'ALARM', 2: 'inconclusive'} if args.expect_silent else \
+                        {0: 'MISSED', 1: 'caught', 2: 'inconclusive'}
+                    verdict = names_.get(cp.returncode, f'exit{cp.returncode}')
                     first = next((l for l in cp.stdout.splitlines() if l.startswith('  class=')), '')
                     print(f'{name:40s} {prop} {verdict:12s} {time.time() - t0:6.1f}s {first[:120]}')
                     sys.stdout.flush()
@@ -76,8 +82,9 @@ def main():
                 shutil.rmtree(scratch, ignore_errors=True)
     finally:
         shutil.rmtree(side, ignore_errors=True)
-    missed = [r for r in results if r[2] != 'caught']
-    print(f'\n{len(results)} runs, {len(results) - len(missed)} caught, {len(missed)} not caught')
+    good = 'silent' if args.expect_silent else 'caught'
+    missed = [r for r in results if r[2] != good]
+    print(f'\n{len(results)} runs, {len(results) - len(missed)} {good}, {len(missed)} not {good}')
     return 1 if missed else 0
 
 
